@@ -9,6 +9,7 @@ sees every stack and flavor), plus the state clauses (no dangling tag, unique ke
 runs change nothing, reader = raw files) evaluated on the implementation's listings alone."""
 import json
 import os
+import time
 
 from . import common, lib_db
 from .common import parallel_map
@@ -199,13 +200,13 @@ def run(ctx):
     n = ctx.n(300, 10000)
     done = 0
     soft = ctx.t0 + (110 if ctx.tier == "quick" and not ctx.escalated else 1e9)   # keep the quick tier under ~3 minutes
-    import time
     while done < n and not ctx.out_of_time() and time.time() < soft:
         k = min(60, n - done)
         evaluate(ctx, [lib_db.gen_history(ctx.rng, ctx.rng.randint(5, 40)) for _ in range(k)])
         done += k
     if ctx.evaluations and ctx.distinct_nontrivial < ctx.evaluations * 0.3:
         raise common.InfraError("degenerate distribution: %d non-trivial of %d" % (ctx.distinct_nontrivial, ctx.evaluations))
+    shrink_failures(ctx)
     moved = ctx.histogram.get("tag-moved", 0)
     if ctx.evaluations > 50 and moved < ctx.evaluations:
         raise common.InfraError("degenerate distribution: only %d tag moves in %d histories" % (moved, ctx.evaluations))
@@ -229,32 +230,68 @@ def replay(ctx, rp):
 
 # ---- shrinking -----------------------------------------------------------------------------------
 
-def fails_with(ctx, case, clause, need_model=True):
-    """does the history still break `clause` at its last command? (fresh run of implementation and model)"""
-    steps = _run_one(case)
-    if isinstance(steps, dict):
-        return False
-    ms = lib_db.model_steps(ctx.lean.ask(lib_db.model_request(case))) if need_model else None
-    sub = common.Ctx("C06", "quick", 0, 60)
-    check_case(sub, case, steps, ms)
-    last = len(case["cmds"])
-    return any(f["clause"] == clause and len(f["input"]["cmds"]) == last for f in sub.failures)
+def make_shrinker(pid, run_one, check, m):
+    """delta-debugging of a failing history for the harness `check` of property `pid` (the failing command stays
+    last; the failure must keep its clause and stay at the last command)"""
+
+    def evaluate_one(ctx, case):
+        steps = run_one(case)
+        if isinstance(steps, dict):
+            return None
+        ms = lib_db.model_steps(ctx.lean.ask(lib_db.model_request(case, m=m)))
+        sub = common.Ctx(pid, "quick", 0, 60)
+        check(sub, case, steps, ms)
+        return sub
+
+    def fails_with(ctx, case, clause):
+        sub = evaluate_one(ctx, case)
+        last = len(case["cmds"])
+        if sub is None:
+            return None
+        for f in sub.failures:
+            if f["clause"] == clause and len(f["input"]["cmds"]) == last:
+                return f
+        return None
+
+    def shrink(ctx, inp, clause, max_tests=40, deadline=None):
+        cmds = inp["cmds"]
+        head, last = cmds[:-1], cmds[-1]
+
+        def still(sub):
+            if deadline and time.time() > deadline:
+                return False
+            return fails_with(ctx, {"missing": inp["missing"], "cmds": list(sub) + [last]}, clause) is not None
+        if head and still([]):
+            head = []
+        elif len(head) >= 2:
+            head = common.ddmin(head, still, max_tests=max_tests)
+        out = {"missing": inp["missing"], "cmds": head + [last]}
+        if inp["missing"] and fails_with(ctx, {"missing": [], "cmds": out["cmds"]}, clause):
+            out["missing"] = []
+        return out
+
+    def shrink_failures(ctx, max_clauses=3, seconds=45):
+        """replace the first failure of up to `max_clauses` clauses that will be reported as violations by a
+        shrunk one (same clause, fresh outputs); the others stay as found"""
+        deadline = time.time() + seconds
+        done = set()
+        for f in list(ctx.failures):
+            agrees = f.get("model_output") is not None and common.jdump(f["model_output"]) == common.jdump(f["impl_output"])
+            if f.get("finding_class") and agrees:
+                continue
+            if f["clause"] in done or len(done) >= max_clauses or time.time() > deadline:
+                continue
+            done.add(f["clause"])
+            try:
+                small = shrink(ctx, f["input"], f["clause"], deadline=deadline)
+                g = fails_with(ctx, small, f["clause"])
+            except Exception:  # noqa: shrinking is best effort
+                g = None
+            if g is not None and len(small["cmds"]) <= len(f["input"]["cmds"]):
+                g = dict(g)
+                g["note"] = (g.get("note", "") + " [shrunk from %d commands]" % len(f["input"]["cmds"])).strip()
+                ctx.failures[ctx.failures.index(f)] = g
+    return fails_with, shrink, shrink_failures
 
 
-def shrink(ctx, inp, clause, max_tests=60):
-    """delta-debug the history (the failing command stays last), then drop the missing directories"""
-    cmds = inp["cmds"]
-    head, last = cmds[:-1], cmds[-1]
-
-    def still(sub):
-        return fails_with(ctx, {"missing": inp["missing"], "cmds": list(sub) + [last]}, clause)
-    if head and still([]):
-        head = []
-    elif len(head) >= 2:
-        head = common.ddmin(head, still, max_tests=max_tests)
-    elif len(head) == 1 and still([]):
-        head = []
-    out = {"missing": inp["missing"], "cmds": head + [last]}
-    if inp["missing"] and fails_with(ctx, {"missing": [], "cmds": out["cmds"]}, clause):
-        out["missing"] = []
-    return out
+fails_with, shrink, shrink_failures = make_shrinker("C06", _run_one, check_case, "c06")
